@@ -344,6 +344,56 @@ class Tool:
         self.focus = focus
 
 
+def pruned_arpa(rng, order, nchains):
+    """an SRILM-style pruned model: every listed n-gram has its prefix (context) listed, but suffixes are pruned away at random
+    ("blank" n-grams for the trie builder), and back-offs are omitted where nothing forces them -- so the builder has to revise
+    records of its temporary files in place (BackoffMessages::Apply -> RecordReader::Overwrite, unigram revision)"""
+    words = ["a", "b", "c", "d", "e", "f", "g"]
+    grams = {1: {("<unk>",), ("<s>",), ("</s>",)} | {(w,) for w in words}}
+    for n in range(2, order + 1):
+        grams[n] = set()
+    noback = set()
+    for c in range(nchains):
+        ln = rng.range(2, order)
+        chain = tuple(rng.choice(words) for _ in range(ln))
+        if rng.chance(1, 3):
+            chain = ("<s>",) + chain[1:]
+        if c < 3 and order >= 4:
+            # the pattern that makes the builder revise an n-gram record in place: w1..wn listed (n >= 4), its suffix w2..wn pruned,
+            # the middle w2..w(n-1) listed WITHOUT a back-off; distinct words keep other chains from listing an extension of it
+            ln = rng.range(4, order)
+            chain = tuple(rng.choice(words[:3]) if i == 0 else "m%d_%d" % (c, i) for i in range(ln))
+            grams[ln - 2].add(chain[1:ln - 1])
+            for j in range(2, ln - 1):
+                grams[j].add(chain[1:1 + j])        # prefixes of the middle
+            noback.add(chain[1:ln - 1])
+            for w in chain[1:]:
+                grams[1].add((w,))
+            for j in range(2, ln + 1):
+                grams[j].add(chain[:j])
+            continue
+        for j in range(2, ln + 1):
+            grams[j].add(chain[:j])                 # all prefixes (contexts)
+        for i in range(1, ln - 1):
+            if rng.chance(1, 3):                    # keep some suffixes, prune the others
+                for j in range(2, ln - i + 1):
+                    grams[j].add(chain[i:i + j])
+    lines = ["\\data\\"] + ["ngram %d=%d" % (n, len(grams[n])) for n in range(1, order + 1)] + [""]
+    for n in range(1, order + 1):
+        lines.append("\\%d-grams:" % n)
+        ctxs = {g[:-1] for g in grams.get(n + 1, ())}
+        for g in sorted(grams[n]):
+            prob = -(1 + rng.below(160)) / 64.0
+            bo = ""
+            if n < order and g[-1] != "</s>" and g not in noback and (g in ctxs and rng.chance(2, 3) or rng.chance(1, 4)):
+                bo = "\t%s" % (-(1 + rng.below(64)) / 64.0)
+            if g == ("<s>",):
+                prob, bo = -99.0, "\t-0.5"
+            lines.append("%s\t%s%s" % (prob, " ".join(g), bo))
+        lines.append("")
+    return "\n".join(lines + ["\\end\\", ""])
+
+
 def make_inputs(ctx, d):
     """small inputs, deterministic from the seed"""
     rng = ctx.rng.fork()
@@ -365,14 +415,47 @@ def make_inputs(ctx, d):
         data = open(os.path.join(d, src), "rb").read()
         for fmt in ("gz", "bz2", "xz"):
             open(os.path.join(d, src + "." + fmt), "wb").write(compress(fmt, data))
+    open(os.path.join(d, "pruned4.arpa"), "w").write(pruned_arpa(rng, 4, 14))
+    open(os.path.join(d, "pruned5.arpa"), "w").write(pruned_arpa(rng, 5, 18))
+    # a vocabulary file of several sentences that spans several 8191-byte reads of an ifstream
+    tw = ["looking", "on", "a", "little", "more", "loin", "also", "would", "consider", "higher", "to", "look", "good", "the", "screening", "of", "biarritz", "not", "in", "."]
+    with open(os.path.join(d, "bigvocab.txt"), "w") as f:
+        for i in range(3):
+            f.write(" ".join(rng.choice(tw[i * 5:i * 5 + 10] + ["filler%d" % rng.below(4000)]) for _ in range(1400)) + "\n")
     # SRI-style pruned model: a context that exists only as a blank (in-place overwrite path of the trie builder, F8)
     open(os.path.join(d, "sri.arpa"), "w").write(
         "\\data\\\nngram 1=6\nngram 2=1\nngram 3=1\n\n\\1-grams:\n-1.0\t<unk>\n-1.0\t<s>\t-0.5\n-1.0\t</s>\n-1.0\ta\n-1.25\tb\n-1.5\tx\t-0.25\n\n"
         "\\2-grams:\n-0.75\tx a\t-0.125\n\n\\3-grams:\n-0.5\tx a b\n\n\\end\\\n")
 
 
-def run_cmd(argv, cwd, stdin=None, stdout=None, env=None, timeout=60, prefix=()):
-    """run under a hard timeout in its own session; returns rc (negative = signal, 124 = timeout)"""
+def session_activity(sid):
+    """(CPU ticks consumed so far by every thread of every process of the session, is any thread runnable or in disk wait)"""
+    ticks, busy = 0, False
+    for pid in os.listdir("/proc"):
+        if not pid.isdigit():
+            continue
+        try:
+            st = open("/proc/%s/stat" % pid).read()
+            f = st[st.rindex(")") + 2:].split()
+            if int(f[3]) != sid:
+                continue
+            for tid in os.listdir("/proc/%s/task" % pid):
+                ts = open("/proc/%s/task/%s/stat" % (pid, tid)).read()
+                g = ts[ts.rindex(")") + 2:].split()
+                ticks += int(g[11]) + int(g[12])
+                busy = busy or g[0] in ("R", "D")
+        except (OSError, ValueError, IndexError):
+            continue
+    return ticks, busy
+
+
+def run_cmd(argv, cwd, stdin=None, stdout=None, env=None, timeout=60, prefix=(), hard=None):
+    """run in its own session; returns rc (negative = signal).
+    Without `hard`: 124 when `timeout` seconds of wall time pass (the process group is killed).
+    With `hard` (seconds): `timeout` is only the point from which the run is WATCHED: it is declared hung (124) only when, in three
+    consecutive samples one second apart, no thread of the session consumed CPU time and none was runnable or in disk wait -- a verdict
+    that does not depend on how busy the machine is; a run that is still making progress at `hard` seconds is killed and reported as
+    125 (slow, says nothing)."""
     e = dict(os.environ)
     if env:
         e.update(env)
@@ -386,16 +469,46 @@ def run_cmd(argv, cwd, stdin=None, stdout=None, env=None, timeout=60, prefix=())
     fout = open(os.path.join(cwd, stdout), "wb") if stdout else subprocess.DEVNULL
     try:
         p = subprocess.Popen(list(prefix) + argv, cwd=cwd, stdin=fin, stdout=fout, stderr=subprocess.DEVNULL, env=e, start_new_session=True)
-        try:
-            if feed is not None:
+        started = [False]
+
+        def wait_for(secs):
+            try:
+                if feed is not None:
+                    try:
+                        if started[0]:
+                            p.communicate(timeout=secs)
+                        else:
+                            started[0] = True
+                            p.communicate(input=feed, timeout=secs)
+                    except BrokenPipeError:
+                        pass
+                return p.wait(timeout=secs)
+            except subprocess.TimeoutExpired:
+                return None
+
+        rc = wait_for(timeout)
+        if rc is None and hard:
+            t0 = time.time()
+            idle = 0
+            last = session_activity(p.pid)[0]
+            while rc is None:
+                rc = wait_for(1.0)
+                if rc is not None:
+                    break
+                ticks, busy = session_activity(p.pid)
+                idle = idle + 1 if (ticks == last and not busy) else 0
+                last = ticks
+                if idle >= 3:
+                    rc = 124
+                elif time.time() - t0 + timeout > hard:
+                    rc = 125
+            if rc in (124, 125):
                 try:
-                    p.communicate(input=feed, timeout=timeout)
-                except BrokenPipeError:
+                    os.killpg(p.pid, signal.SIGKILL)
+                except OSError:
                     pass
-                rc = p.wait(timeout=timeout)
-            else:
-                rc = p.wait(timeout=timeout)
-        except subprocess.TimeoutExpired:
+                p.wait()
+        elif rc is None:
             try:
                 os.killpg(p.pid, signal.SIGKILL)
             except OSError:
@@ -471,7 +584,7 @@ def profile(tool, workdir):
             mfd = re.match(r"(\d+)<", args)
             if mfd and int(mfd.group(1)) > 2:
                 wide[sc] += 1
-            if data_call(sc, args, workdir):
+            if data_call(sc, args, os.path.dirname(workdir)):       # inputs live beside the run directory, outputs and temporaries in it
                 ks[sc].add(c)
             if sc == "pread64":
                 mo = re.match(r"\d+<([^>]*)>(\(deleted\))?, .*, (\d+), (\d+)\)", args)
@@ -507,6 +620,14 @@ def tool_specs(bins, d):
         Tool("build_binary-trie-after", [bins["build_binary"], "-T", "tmp/", "-S", "10M", "-w", "after", "-q", "4", "-a", "3", "trie", "../test.arpa", "out.bin"],
              ["out.bin"], binary="out.bin"),
         Tool("build_binary-trie-sri", [bins["build_binary"], "-T", "tmp/", "-S", "10M", "trie", "../sri.arpa", "out.bin"], ["out.bin"], binary="out.bin"),
+        # pruned models of order 4 and 5 with blank n-grams: in-place revisions of the n-gram temp files, flushed by Rewind()
+        Tool("build_binary-trie-pruned4", [bins["build_binary"], "-T", "tmp/", "-S", "10M", "trie", "../pruned4.arpa", "out.bin"], ["out.bin"], binary="out.bin"),
+        Tool("build_binary-trie-pruned5", [bins["build_binary"], "-T", "tmp/", "-S", "10M", "-w", "after", "-q", "5", "-a", "4", "trie", "../pruned5.arpa", "out.bin"],
+             ["out.bin"], binary="out.bin"),
+        # vocabulary read from a FILE through an ifstream in several chunks (union / multiple mode), the model from stdin
+        Tool("filter-union-vocabfile", [bins["filter"], "union", "threads:1", "vocab:../bigvocab.txt", "out.arpa"], ["out.arpa"], stdin="../test.arpa"),
+        Tool("filter-multiple-vocabfile", [bins["filter"], "multiple", "threads:1", "vocab:../bigvocab.txt", "out.arpa"],
+             ["out.arpa0", "out.arpa1", "out.arpa2"], stdin="../test.arpa"),
         Tool("filter-single", [bins["filter"], "single", "threads:1", "model:../test.arpa", "out.arpa"], ["out.arpa"], stdin="../vocab.txt"),
         Tool("filter-raw", [bins["filter"], "single", "raw", "threads:1", "model:../corpus1.txt", "out.txt"], ["out.txt"], stdin="../vocab.txt"),
         # compressed input arriving through a pipe (not mmap-able: ReadFactory sniffs the format from read()s) and as a file
@@ -573,6 +694,7 @@ def tool_level(ctx, shim):
     errs_for = (lambda sc: [INJ_ERR[sc]]) if ctx.quick else (lambda sc: sorted({INJ_ERR[sc], "EIO", "ENOSPC", "ENOMEM"}))
     jobs = []
     baselines = {}
+    base_wall = {}
     stats = {"runs": 0, "nonzero": 0, "exit0_identical": 0, "signal": 0, "timeouts": 0, "complete_identical_after_failure": 0,
              "per_tool": {}, "injection_points_total": {}, "merge_refill_fault_points": {}}
     for t in specs:
@@ -583,7 +705,9 @@ def tool_level(ctx, shim):
             ctx.report("tool-baseline:" + t.name, "fault-free run of %s fails (rc=%s)" % (t.name, rc), {"argv": t.argv, "rc": rc})
             continue
         w2 = fresh_dir(base, t.name + ".prof")
+        tp = time.time()
         rc2, ks, total, wide, refill = profile(t, w2)
+        base_wall[t.name] = time.time() - tp          # wall time of the traced fault-free run, measured now, under the current load
         outs2 = read_outputs(w2, t.outputs)
         if rc2 != 0 or outs2 != outs:
             ctx.report("tool-determinism:" + t.name, "two fault-free runs of %s differ (second one under strace)" % t.name, {"argv": t.argv, "rc": rc2})
@@ -620,17 +744,19 @@ def tool_level(ctx, shim):
         for s in range(ctx.pick(5 if piped else 3, 25)):
             jobs.append((t, "storm", "", ctx.rng.below(1 << 30), ["150", "400", "700", "1000"][s % 4]))
 
-    tmo = ctx.pick(6, 15)
-
-    def attempt(job, timeout):
+    def attempt(job):
         t, mode, sc, k, err = job
+        # a faulted run is WATCHED from `timeout` on (5 x the traced fault-free wall time measured in this run, at least 3 s) and
+        # called a hang only when the whole session shows no CPU progress and no runnable thread (run_cmd); never on wall time alone
+        timeout = max(3.0, 5 * base_wall.get(t.name, 1.0))
+        hard = max(90.0, 60 * base_wall.get(t.name, 1.0))
         w = fresh_dir(base, "%s.%s.%s.%s.%s" % (t.name, mode, sc, k, err))
         where = None
         if mode == "inject":
             tr = os.path.join(w, "inject.trace")
-            rc = run_cmd(t.argv, w, t.stdin, t.stdout, timeout=timeout,
+            rc = run_cmd(t.argv, w, t.stdin, t.stdout, timeout=timeout, hard=hard,
                          prefix=["strace", "-f", "-o", tr, "-e", "trace=" + sc, "-e", "inject=%s:error=%s:when=%d" % (sc, err, k)])
-            if rc == 124 and os.path.exists(tr):
+            if os.path.exists(tr):
                 # which threads received the injected error?  (the first pid in the trace is the tool's main thread)
                 main, hit = None, set()
                 for line in open(tr, errors="replace"):
@@ -641,37 +767,39 @@ def tool_level(ctx, shim):
                 # (per-thread counting can hit several threads; an error in the main thread is what the known defect needs)
                 where = "none" if not hit else "main-thread" if main in hit else "worker-thread"
         elif mode == "shimfail":
-            rc = run_cmd(t.argv, w, t.stdin, t.stdout, timeout=timeout, env={"LD_PRELOAD": shim, "IO_SHIM_FAIL": "%s:%d:%s" % (sc, k, err), "IO_SHIM_FAIL_REPORT": os.path.join(w, "fail.report")})
-            if rc == 124:
-                rp = os.path.join(w, "fail.report")
-                where = open(rp).read().strip() if os.path.exists(rp) else "none"
+            rc = run_cmd(t.argv, w, t.stdin, t.stdout, timeout=timeout, hard=hard,
+                         env={"LD_PRELOAD": shim, "IO_SHIM_FAIL": "%s:%d:%s" % (sc, k, err), "IO_SHIM_FAIL_REPORT": os.path.join(w, "fail.report")})
+            rp = os.path.join(w, "fail.report")
+            where = open(rp).read().strip() if os.path.exists(rp) else "none"
         elif mode == "firstread":
-            rc = run_cmd(t.argv, w, t.stdin, t.stdout, timeout=timeout, env={"LD_PRELOAD": shim, "IO_SHIM_FIRST_READ": str(k)})
+            rc = run_cmd(t.argv, w, t.stdin, t.stdout, timeout=timeout, hard=hard, env={"LD_PRELOAD": shim, "IO_SHIM_FIRST_READ": str(k)})
         else:
-            rc = run_cmd(t.argv, w, t.stdin, t.stdout, timeout=timeout, env={"LD_PRELOAD": shim, "IO_SHIM_STORM": "%d:%s" % (k, err)})
+            rc = run_cmd(t.argv, w, t.stdin, t.stdout, timeout=timeout, hard=hard, env={"LD_PRELOAD": shim, "IO_SHIM_STORM": "%d:%s" % (k, err)})
         outs = read_outputs(w, t.outputs)
         shutil.rmtree(w, ignore_errors=True)
         return rc, outs, where
 
-    confirmed = {}
+    def one(group):
+        """the errnos of ONE fault point, in turn; after a hang the remaining errnos of that point are not tried (same defect, 7 s each)"""
+        res = []
+        for job in group:
+            rc, outs, where = attempt(job)
+            res.append((job, rc, outs, where))
+            if rc == 124:
+                break
+        return res
 
-    def one(job):
-        rc, outs, where = attempt(job, tmo)
-        if rc == 124:
-            # confirm a hang with three times the time before calling it one; after one confirmed hang of the same class
-            # (tool, thread the fault reached) further ones are taken at the basic timeout
-            key = (os.path.basename(job[0].argv[0]), where)
-            if confirmed.get(key, 0) < 1:
-                rc, outs, where = attempt(job, 3 * tmo)
-                if rc == 124:
-                    confirmed[key] = confirmed.get(key, 0) + 1
-        return job, rc, outs, where
-
-    ctx.rng.shuffle(jobs)      # spread the slow (hanging) runs over the workers
+    groups = {}
+    for j in jobs:
+        groups.setdefault((j[0].name, j[1], j[2], j[3]) if j[1] in ("inject", "shimfail") else (j[0].name, j[1], j[2], j[3], j[4]), []).append(j)
+    groups = list(groups.values())
+    stats["skipped_errnos_after_hang"] = 0
+    ctx.rng.shuffle(groups)      # spread the slow (hanging) runs over the workers
     results = []
     with concurrent.futures.ThreadPoolExecutor(max_workers=min(8, vlib.NPROC)) as ex:
-        for r in ex.map(one, jobs):
-            results.append(r)
+        for g, r in zip(groups, ex.map(one, groups)):
+            results.extend(r)
+            stats["skipped_errnos_after_hang"] += len(g) - len(r)
     distinct = set()
     for (t, mode, sc, k, err), rc, outs, where in results:
         stats["runs"] += 1
@@ -683,12 +811,24 @@ def tool_level(ctx, shim):
                   else ("LD_PRELOAD=io_shim.so IO_SHIM_FAIL=%s:%d:%s <argv>" % (sc, k, err)) if mode == "shimfail"
                   else ("LD_PRELOAD=io_shim.so IO_SHIM_FIRST_READ=%d <argv>  (stdin: %s)" % (k, t.stdin)) if mode == "firstread"
                   else "LD_PRELOAD=io_shim.so IO_SHIM_STORM=%d:%s <argv>" % (k, err)}
+        if mode in ("inject", "shimfail") and where == "none" and rc != 124:
+            # the call that was to fail was never made in this run (call counts vary with thread timing): not a test of anything
+            stats["fault_not_reached"] = stats.get("fault_not_reached", 0) + 1
+            continue
+        if rc == 125:
+            stats["slow_inconclusive"] = stats.get("slow_inconclusive", 0) + 1       # still making progress at the hard limit: says nothing
+            continue
         if rc == 124:
+            if mode in ("inject", "shimfail") and where == "none":
+                # the injected error was never reached: the run is not a test of anything
+                stats["hang_without_reached_fault"] = stats.get("hang_without_reached_fault", 0) + 1
+                continue
             stats["timeouts"] += 1
             replay["fault_hit"] = where
             binname = os.path.basename(t.argv[0])
             sig = "tool:%s:hang:fault-in-%s" % (binname, where) if mode in ("inject", "shimfail") else "tool:%s:hang:%s" % (binname, mode)
-            ctx.report(sig, "%s neither finished nor failed within %d s after %s (the injected error reached: %s)" % (t.name, 3 * tmo, replay["how"], where), replay)
+            ctx.report(sig, "%s neither finished nor failed after %s: no thread of the process consumed CPU time or was runnable for 3 s (the injected error reached: %s)" %
+                       (t.name, replay["how"], where), replay)
             continue
         if mode in ("storm", "firstread"):
             if rc != 0 or outs != base_outs:
@@ -701,9 +841,10 @@ def tool_level(ctx, shim):
                 stats["exit0_identical"] += 1
                 distinct.add((t.name, mode, k, err))
             continue
-        if rc == 0 and sc in ("fsync", "fdatasync", "msync"):
-            # identical bytes in the page cache say nothing about a sync: the property demands that a failed sync is reported
-            ctx.report("tool:%s:%s:ignored" % (t.name, sc), "%s exits 0 although %s call #%d failed with %s: the failed sync was ignored" % (t.name, sc, k, err), replay)
+        if rc == 0 and mode in ("inject", "shimfail") and sc in ("fsync", "fdatasync", "msync", "ftruncate"):
+            # identical bytes say nothing about a sync, and a resize that failed left a file of another size behind: the property
+            # demands that a failed sync / resize of a data file is reported (these indices are calls on data files by construction)
+            ctx.report("tool:%s:%s:ignored" % (t.name, sc), "%s exits 0 although %s call #%d (on a data file) failed with %s: the failure was ignored" % (t.name, sc, k, err), replay)
         elif rc == 0:
             if outs != base_outs:
                 which = [o for o in t.outputs if outs[o] != base_outs[o]]
